@@ -2,7 +2,173 @@
 import itertools
 from .common import *   # noqa
 
-CONTRACTS = []
+import z3
+from pyvc.exec import Obj, Opaque
+from pyvc.nparr import sym_array, SArr
+
+IO = 'cmaqfiles/_ioapi.py'
+F = 'core/_files.py'
+
+
+class BaseSliceAssumed(Contract):
+    """ASSUMED summary of PseudoNetCDFFile.sliceDimensions for this proof (checked by the bounded harnesses of C02/C11):
+    the result is a new IOAPI file object carrying the receiver's global attributes and the sliced dimensions"""
+    prop = 'C11'
+    target = F + '::PseudoNetCDFFile.sliceDimensions'
+
+    def apply(self, I, func, args, kwargs):
+        me = args[0]
+        out = Obj(me.cls, dict(me.attrs), tag='sliced')
+        out.attrs['dimensions'] = dict(me.attrs['dimensions'])
+        out.ghost['source'] = me
+        I.ctx.ghost['slice_kwargs'] = dict(kwargs)
+        I.ctx.trust_contract = getattr(I.ctx, 'trust_contract', set())
+        I.ctx.trust_contract.add(self.target + ' (assumed summary)')
+        return out
+
+
+class UpdateMetaAssumed(Contract):
+    """ASSUMED: updatemeta() does not touch XORIG, YORIG, XCELL, YCELL, VGLVLS (it recomputes counts and TFLAG)"""
+    prop = 'C11'
+    target = IO + '::ioapi_base.updatemeta'
+
+    def apply(self, I, func, args, kwargs):
+        return None
+
+
+def window_first(sel, n):
+    """index of the first retained cell for a window given as integer (+/-) or unit-stride slice (start, stop)"""
+    if isinstance(sel, tuple):
+        a = sel[0]
+        return ite(lt(a, 0), add(a, n), a)
+    return ite(lt(sel, 0), add(sel, n), sel)
+
+
+class SliceOrigin(Contract):
+    """ioapi sliceDimensions: the grid origin moves by (index of the first retained column/row) x cell size, cell sizes and the
+    other origin are unchanged -- for windows given as integers (positive or negative) or unit-stride slices, any grid size"""
+    prop = 'C11'
+    target = IO + '::ioapi_base.sliceDimensions'
+    uses = [BaseSliceAssumed(), UpdateMetaAssumed()]
+    max_paths = 100
+
+    def __init__(self, dims, kind):
+        self.dims, self.kind = dims, kind
+        self.name = 'ioapi.sliceDimensions[%s as %s]' % ('+'.join(dims), kind)
+
+    def inputs(self, ctx, I):
+        n = dict(COL=ctx.fresh('ncols'), ROW=ctx.fresh('nrows'))
+        attrs = dict(XORIG=ctx.fresh('XORIG', 'Real'), YORIG=ctx.fresh('YORIG', 'Real'), XCELL=ctx.fresh('XCELL', 'Real'), YCELL=ctx.fresh('YCELL', 'Real'),
+                     NCOLS=n['COL'], NROWS=n['ROW'])
+        f = pnc_file(I, dimensions={d: dim_obj(I, d, n[d]) for d in ('ROW', 'COL')}, attrs=attrs, relpath=IO, clsname='ioapi_base')
+        kw = {}
+        self.sel = {}
+        for d in self.dims:
+            if self.kind == 'int':
+                s = ctx.fresh('i_' + d)
+                kw[d] = s
+                self.sel[d] = s
+            else:
+                a, b = ctx.fresh('start_' + d), ctx.fresh('stop_' + d)
+                kw[d] = slice(a, b)
+                self.sel[d] = (a, b)
+        self.n = n
+        self.attrs0 = dict(attrs)
+        return dict(self=f, kwds=kw)
+
+    def call_args(self, inp):
+        return [inp['self']], dict(inp['kwds'])
+
+    def requires(self, inp):
+        r = And(ge(self.n['COL'], 1), ge(self.n['ROW'], 1))
+        for d, s in self.sel.items():
+            n = self.n[d]
+            if isinstance(s, tuple):
+                a, b = s
+                na, nb = window_first(s, n), ite(lt(b, 0), add(b, n), b)
+                r = And(r, ge(a, sym.neg(n)), lt(a, n), ge(nb, 0), le(nb, n), lt(na, nb))     # non-empty window inside the grid
+            else:
+                r = And(r, ge(s, sym.neg(n)), lt(s, n))
+        return r
+
+    def ensures(self, inp, res, I):
+        if not isinstance(res, Obj):
+            return [('returns-file', False)]
+        a0, a = self.attrs0, res.attrs
+        out = [('cell-size-unchanged', And(eq(a['XCELL'], a0['XCELL']), eq(a['YCELL'], a0['YCELL']))),
+               ('source-origin-unchanged', And(eq(inp['self'].attrs['XORIG'], a0['XORIG']), eq(inp['self'].attrs['YORIG'], a0['YORIG'])))]
+        for d, org, cell in (('COL', 'XORIG', 'XCELL'), ('ROW', 'YORIG', 'YCELL')):
+            if d in self.sel:
+                out.append(('%s-moves-by-first-index-x-cell' % org, eq(a[org], add(a0[org], mul(window_first(self.sel[d], self.n[d]), a0[cell])))))
+            else:
+                out.append(('%s-unchanged' % org, eq(a[org], a0[org])))
+        return out
+
+
+CONTRACTS = [SliceOrigin(d, k) for d in (('COL',), ('ROW',), ('ROW', 'COL')) for k in ('int', 'slice')]
+
+
+
+class SliceLevels(Contract):
+    """ioapi sliceDimensions(LAY=window): the level edges of the result are the matching sub-range (one more edge than layers)"""
+    prop = 'C11'
+    target = IO + '::ioapi_base.sliceDimensions'
+    uses = [BaseSliceAssumed(), UpdateMetaAssumed()]
+    max_paths = 100
+
+    def __init__(self, kind):
+        self.kind = kind
+        self.name = 'ioapi.sliceDimensions[LAY as %s]' % kind
+
+    def inputs(self, ctx, I):
+        nl = ctx.fresh('nlays')
+        vg = sym_array('VGLVLS', (add(nl, 1),), 'f')
+        attrs = dict(XORIG=ctx.fresh('XORIG', 'Real'), YORIG=ctx.fresh('YORIG', 'Real'), XCELL=ctx.fresh('XCELL', 'Real'), YCELL=ctx.fresh('YCELL', 'Real'), VGLVLS=vg)
+        f = pnc_file(I, dimensions={'LAY': dim_obj(I, 'LAY', nl)}, attrs=attrs, relpath=IO, clsname='ioapi_base')
+        self.nl, self.vg = nl, vg
+        if self.kind == 'int':
+            self.sel = ctx.fresh('i_LAY')
+            kw = dict(LAY=self.sel)
+        else:
+            self.sel = (ctx.fresh('start_LAY'), ctx.fresh('stop_LAY'))
+            kw = dict(LAY=slice(*self.sel))
+        return dict(self=f, kwds=kw)
+
+    def call_args(self, inp):
+        return [inp['self']], dict(inp['kwds'])
+
+    def first_count(self):
+        n = self.nl
+        if isinstance(self.sel, tuple):
+            a, b = self.sel
+            na, nb = ite(lt(a, 0), add(a, n), a), ite(lt(b, 0), add(b, n), b)
+            return na, sub(nb, na)
+        return ite(lt(self.sel, 0), add(self.sel, n), self.sel), 1
+
+    def requires(self, inp):
+        n = self.nl
+        r = ge(n, 1)
+        if isinstance(self.sel, tuple):
+            a, b = self.sel
+            na, cnt = self.first_count()
+            nb = add(na, cnt)
+            return And(r, ge(a, sym.neg(n)), lt(a, n), ge(b, sym.neg(n)), le(b, n), ge(nb, 0), le(nb, n), ge(cnt, 1))
+        return And(r, ge(self.sel, sym.neg(n)), lt(self.sel, n))
+
+    def ensures(self, inp, res, I):
+        if not isinstance(res, Obj):
+            return [('returns-file', False)]
+        vg2 = res.attrs.get('VGLVLS')
+        if not isinstance(vg2, SArr):
+            return [('VGLVLS-is-array', False)]
+        first, cnt = self.first_count()
+        j = z3.Int('lev_j')
+        return [('one-more-edge-than-layers', eq(vg2.shape[0], add(cnt, 1))),
+                ('edges-are-the-matching-sub-range', Implies(And(ge(j, 0), le(j, cnt)), eq(vg2.get(j), self.vg.get(add(first, j))))),
+                ('origin-unchanged', And(eq(res.attrs['XORIG'], inp['self'].attrs['XORIG']), eq(res.attrs['YORIG'], inp['self'].attrs['YORIG'])))]
+
+
+CONTRACTS += [SliceLevels('int'), SliceLevels('slice')]
 
 
 def bounded(tier, seed):
@@ -104,8 +270,11 @@ def bounded_replay(p):
 
 
 META = dict(
-    level='exploration',
-    technique='bounded run-time contract on the real IOAPI sliceDimensions (origin / level / time referencing oracle)',
-    text='origin, level edges, decoded times and TSTEP of every window compared with the projected coordinates / level bounds / timestamps of the retained cells in the source.',
-    note='bounded only.',
-    assumptions=[], explanation='')
+    level='other',
+    technique='origin and level-edge arithmetic of ioapi sliceDimensions proved by pyvc (modular: base slicing and updatemeta as assumed summaries); time referencing by bounded run-time contract',
+    text='Proved for grids of any size and windows given as integers (positive or negative) or unit-stride slices: XORIG/YORIG move by (first retained index) x cell size, cell sizes and the '
+         'source are unchanged, VGLVLS of the result is the matching sub-range with one more edge than layers. Bounded: decoded times / SDATE / STIME / TSTEP of time windows (strftime-based), '
+         'retained data, metadata coherence, pairs of dimensions.',
+    note='PseudoNetCDFFile.sliceDimensions and updatemeta are ASSUMED summaries in the proof (the former is checked by the bounded harnesses of C02/C11); floats are reals (A-REAL).',
+    assumptions=[sym.A_REAL],
+    explanation='mixed: proof obligations for origin/level arithmetic + bounded exploration for time referencing')
